@@ -20,7 +20,7 @@ from vlib.workload import case_rng, clear_typelib_caches, per_shard, quiet
 ID = "C08"
 LEVEL = "exploration"
 RULE = ("ordered member tuples of length 2-4 over a pool of 12 member types (int, str, float, Decimal, date, datetime, UUID, list[int], "
-        "dict[str,int], a dataclass, an Enum, a Literal), None inserted at every position, spellings typing.Union / Optional / X|Y; every "
+        "dict[str,int], a dataclass, an Enum, a Literal; in 30% of the unions one member is replaced by a union behind a name - NewType or alias of a union, with and without None), None inserted at every position, spellings typing.Union / Optional / X|Y; every "
         "union is built on cold typelib+typing caches; inputs = hostile pool X + every member's valid values and wire forms; one "
         "evaluation = one (union, input, direction) compared with the reference rule evaluated over independently built member "
         "routines; distinct = (member tuple, spelling, canonical input, direction); non-trivial = at least two members accept or reject "
@@ -32,8 +32,8 @@ ASSUMPTIONS = [
 ]
 EXHAUSTIVE = {"quick": False, "thorough": False}
 PLAN = {"quick": dict(unions=2600, inputs=36), "thorough": dict(unions=60000, inputs=70)}
-FLOORS = {"quick": {"single_member_optionals": 30, "unmarshal_compared": 70000, "marshal_compared": 40000, "none_honoured": 2000, "all_reject_valueerror": 8000, "orders": 2000},
-          "thorough": {"single_member_optionals": 30, "unmarshal_compared": 3000000, "marshal_compared": 1500000, "none_honoured": 60000, "all_reject_valueerror": 300000, "orders": 30000}}
+FLOORS = {"quick": {"named_union_members": 500, "single_member_optionals": 30, "unmarshal_compared": 70000, "marshal_compared": 40000, "none_honoured": 2000, "all_reject_valueerror": 8000, "orders": 2000},
+          "thorough": {"named_union_members": 12000, "single_member_optionals": 30, "unmarshal_compared": 3000000, "marshal_compared": 1500000, "none_honoured": 60000, "all_reject_valueerror": 300000, "orders": 30000}}
 
 MOD = "vunion_pool"
 SRC = """
@@ -47,18 +47,26 @@ class Col(enum.Enum):
     one = 1
 Lit = typing.Literal[1, "a", None]
 Lit2 = typing.Literal["x", 2]
+# unions behind a NAME: one member of the outer union, tried as a whole at its declared position
+import datetime, uuid
+NTU = typing.NewType("NTU", typing.Union[int, datetime.date])
+AlU = typing.TypeAliasType("AlU", float | uuid.UUID)
+MaybeInt = typing.TypeAliasType("MaybeInt", typing.Optional[int])
+NTS = typing.NewType("NTS", typing.Union[bool, str])
 """
+NAMED_UNIONS = ["NTU", "AlU", "MaybeInt", "NTS"]
 
 
 def pool():
     if MOD not in sys.modules:
         m = types.ModuleType(MOD)
         sys.modules[MOD] = m
-        exec(compile(SRC, f"/verif/out/generated/{MOD}.py", "exec"), m.__dict__)
+        exec(compile(SRC, f"/verif/out/generated/{MOD}.py", "exec", dont_inherit=True), m.__dict__)
     m = sys.modules[MOD]
     return {
         "int": int, "str": str, "float": float, "Decimal": decimal.Decimal, "date": datetime.date, "datetime": datetime.datetime,
         "UUID": uuid.UUID, "list[int]": list[int], "dict[str,int]": dict[str, int], "DC": m.DC, "Col": m.Col, "Lit2": m.Lit2,
+        **{n: getattr(m, n) for n in NAMED_UNIONS},
     }, m
 
 
@@ -141,7 +149,7 @@ def names_for(sh, i, rng, names):
 def run_shard(sh):
     plan = PLAN[sh.tier]
     P, mod = pool()
-    names = list(P)
+    names = [n for n in P if n not in NAMED_UNIONS]
     import random
 
     # deterministic global enumeration, sharded round-robin
@@ -169,6 +177,11 @@ def run_shard(sh):
     def case(i):
         rng = case_rng(sh, i)
         tup = mine[i]
+        if rng.random() < 0.3:
+            # one member is a union behind a name (NewType / alias of a union): the outer rule sees ONE member there
+            j = rng.randrange(len(tup))
+            tup = tup[:j] + (rng.choice(NAMED_UNIONS),) + tup[j + 1:]
+            sh.count("named_union_members")
         none_pos = rng.choice([None, None] + list(range(len(tup) + 1)))
         if len(tup) == 1:
             none_pos = rng.choice([0, 1])
